@@ -88,7 +88,8 @@ def appends(ctx, R, N, loc, tagx=""):
     kinds = sorted((k, w) for _, k, w, _ in muts)
     ok = kinds == [("list-append", "fractions"), ("list-append", "orientations")]
     after = all(i > last_step for i, *_ in muts)
-    owner = all(e.func.endswith("Mineral.update_orientations") for *_, e in muts)
+    # issued by update_orientations itself or by a plain method of Mineral it calls after the loop — never by the nested solver callbacks
+    owner = all(e.func.startswith("pydrex.minerals.Mineral.") and e.func.count(".") == 3 for *_, e in muts)
     ctx.ob("C01.append-once", tag, ok and after and owner,
            f"history events {kinds}; after last solver step: {after}; issued by {[e.func for *_, e in muts]}", loc)
     m = R.mineral
@@ -289,22 +290,63 @@ def who_may_write(ctx):
                         hit = (n.func.attr, b.attr)
                 if hit:
                     found.append((mname, qual, hit, n.lineno, mod))
+    # a private helper method of Mineral is an allowed writer when every call of it in the package sits directly in the body of an allowed writer
+    def callers_of(method):
+        out = []
+        for mname2, mod2 in ctx.program.modules.items():
+            for qual2, fn2 in functions_of(mod2.tree):
+                for n in flow.walk_shallow(fn2):
+                    if isinstance(n, ast.Call) and isinstance(n.func, ast.Attribute) and n.func.attr == method:
+                        out.append((mname2, qual2))
+                for sub in ast.walk(fn2):
+                    if sub is not fn2 and isinstance(sub, (ast.FunctionDef, ast.Lambda)):
+                        for n in ast.walk(sub):
+                            if isinstance(n, ast.Call) and isinstance(n.func, ast.Attribute) and n.func.attr == method:
+                                out.append((mname2, qual2 + ".<nested>"))
+        return out
+    helper_of = {}
+
+    def allowed(mname, qual, depth=0):
+        if (mname, qual) in ALLOWED_WRITERS:
+            return ALLOWED_WRITERS[(mname, qual)]
+        if depth < 3 and mname == "pydrex.minerals" and qual.startswith("Mineral._") and qual.count(".") == 1 and not qual.endswith("__"):
+            cs = callers_of(qual.split(".")[1])
+            if cs and all(allowed(m2, q2, depth + 1) for m2, q2 in cs):
+                helper_of[qual.split(".")[1]] = sorted({q2 for _, q2 in cs})
+                return f"private helper called only from {sorted({q2 for _, q2 in cs})}"
+        return None
     for mname, qual, hit, line, mod in found:
-        ok = (mname, qual) in ALLOWED_WRITERS
+        why = allowed(mname, qual)
+        ok = why is not None
         ctx.ob("C01.who-may-write", f"{mname}.{qual}:{hit[0]}:{hit[1]}", ok,
-               ("allowed: " + ALLOWED_WRITERS[(mname, qual)]) if ok else f"unexpected writer of Mineral history ({hit[0]} of .{hit[1]})",
+               ("allowed: " + why) if ok else f"unexpected writer of Mineral history ({hit[0]} of .{hit[1]})",
                f"{ctx.program.relpath(mod.path)}:{line}", key=("C01.who-may-write", mname, qual, hit))
     # update_orientations: the appends must not be inside nested functions and must follow the loop in the CFG
     fn = ctx.program.require_method("pydrex.minerals.Mineral", "update_orientations")
     cfg = flow.CFG(fn)
-    app = cfg.nodes_where(lambda s: isinstance(s, ast.Expr) and isinstance(s.value, ast.Call) and isinstance(s.value.func, ast.Attribute)
-                          and s.value.func.attr == "append" and isinstance(s.value.func.value, ast.Attribute) and s.value.func.value.attr in HIST)
+    helper_appends = {}
+    for mname, qual, hit, line, mod in found:
+        if hit[0] == "append" and mname == "pydrex.minerals" and qual.split(".")[-1] in helper_of:
+            helper_appends.setdefault(qual.split(".")[-1], []).append(hit[1])
+
+    def appended(s):
+        """history attributes appended by statement s: a direct append, or a call of a private helper that appends"""
+        if not (isinstance(s, ast.Expr) and isinstance(s.value, ast.Call) and isinstance(s.value.func, ast.Attribute)):
+            return []
+        f = s.value.func
+        if f.attr == "append" and isinstance(f.value, ast.Attribute) and f.value.attr in HIST:
+            return [f.value.attr]
+        if isinstance(f.value, ast.Name) and f.value.id == "self" and f.attr in helper_appends:
+            return list(helper_appends[f.attr])
+        return []
+    app = cfg.nodes_where(lambda s: bool(appended(s)))
+    attrs = sorted(a for n in app for a in appended(cfg.stmt[n]))
     loops = cfg.nodes_where(lambda s: isinstance(s, (ast.While, ast.For)))
     idom = cfg.dominators()
-    ok = len(app) == 2 and bool(loops) and all(not cfg.reachable_without(a, l, ()) for a in app for l in loops) \
+    ok = attrs == sorted(HIST) and bool(loops) and all(not cfg.reachable_without(a, l, ()) for a in app for l in loops) \
         and all(any(cfg.dominates(l, a, idom) for l in loops) for a in app)
     ctx.ob("C01.who-may-write", "update_orientations: appends follow the solver loop on every path (CFG)", ok,
-           f"{len(app)} append statement(s) in the method body, {len(loops)} loop(s)", f"{ctx.program.relpath(ctx.program.module('pydrex.minerals').path)}:{fn.lineno}")
+           f"history appends in the method body: {attrs}, {len(loops)} loop(s)", f"{ctx.program.relpath(ctx.program.module('pydrex.minerals').path)}:{fn.lineno}")
 
 
 def functions_of(tree):
